@@ -17,7 +17,6 @@ import (
 	"fmt"
 	"testing"
 
-	"go.uber.org/multierr"
 	"go.uber.org/zap"
 	"go.uber.org/zap/zapcore"
 
@@ -346,14 +345,13 @@ func TestVerifC10E2E(t *testing.T) {
 			for _, k := range pl.iStop {
 				sw.inners[k].failStop = true
 			}
-			ctx := context.Background()
-			var errAll error
-			errStart := srv.Start(ctx)
-			nStart := len(w.log)
-			if errStart != nil {
-				errAll = multierr.Combine(errStart, srv.Shutdown(ctx))
-			} else {
-				errAll = srv.Shutdown(ctx)
+			pl.f.cx.arm(byIdx, xByIdx)
+			errStart, errAll, nStart := vRunLifetime(w, pl.f.cx, srv.Start, srv.Shutdown)
+			if w.ret == nil {
+				w.ret = map[[2]int]bool{}
+			}
+			if pl.f.cx.any() {
+				out.Stat("ctx-scenario", 1)
 			}
 			// induced node-level failures of the shared wrappers
 			fcStart := append([]int{}, pl.f.fcStart...)
@@ -361,9 +359,11 @@ func TestVerifC10E2E(t *testing.T) {
 			for _, n := range sw.nodes {
 				if n.startErr {
 					fcStart = append(fcStart, n.idx)
+					w.ret[[2]int{tCStart, n.idx}] = true
 				}
 				if n.stopErr {
 					fcStop = append(fcStop, n.idx)
+					w.ret[[2]int{tCStop, n.idx}] = true
 				}
 			}
 			var nodeLog, startNodeLog [][2]int
@@ -378,7 +378,7 @@ func TestVerifC10E2E(t *testing.T) {
 			c := &vCase{kind: 5, comps: comps, exts: exts, cfgw: cfgw, pipew: pipew, edges: edges, specEdges: edges,
 				deps: deps, hasConf: hasConf, fxStart: pl.f.fxStart, fxStop: pl.f.fxStop, fcStart: fcStart, fcStop: fcStop,
 				fCfg: pl.f.fCfg, fReady: pl.f.fReady, fNotReady: pl.f.fNotReady, log: w.log,
-				iStart: pl.iStart, iStop: pl.iStop, shared: shared}
+				iStart: pl.iStart, iStop: pl.iStop, shared: shared, cx: pl.f.cx, ret: w.ret}
 			c.errs = vErrList(errAll)
 			c.extOrder = vRev(vSeq(nodeLog[len(startNodeLog):], tXStop))
 			started := vSeq(startNodeLog, tCStart)
